@@ -98,6 +98,8 @@ def run(ck):
     ck.clause("C07.G3", "reductions without identity have default=/initial= or a dominating non-emptiness guard")
     ck.clause("C07.G4", "Optional worker result tested for None before dereference")
     ck.clause("C07.G5", "query-longer-than-reference early return dominates the 'valid' correlations")
+    ck.clause("C07.G7", "argpartition(x, k) is evaluated only under k < len(x)")
+    ck.clause("C07.G8", "a query that cannot be placed yields no record: rows without pairs are filtered out")
     ck.assume("external summaries: zip(*[]) yields nothing (unpacking raises); DataFrame.apply(axis=1) on a zero-row "
               "frame returns a DataFrame (no tolist); max/min/next/fmean/ndarray.max raise on empty input without "
               "default/initial; itertools.groupby groups are non-empty")
@@ -243,6 +245,9 @@ def run(ck):
     _g3_reference_instances(ck)
     _g4(ck)
     _g5(ck)
+    _g7(ck, fns)
+    from .c01 import non_empty_filter
+    non_empty_filter(ck, "C07.G8")
 
 
 def _strip_iter(t: Term) -> Term:
@@ -424,3 +429,45 @@ def _ge_fact(facts) -> bool:
         val = facts[pg] if pol else not facts[pg]
         return val is False
     return False
+
+
+def _g7(ck, fns):
+    """numpy.argpartition(a, kth) raises when kth >= len(a): the call must be dominated by `kth < size`."""
+    n = 0
+    for fn in fns:
+        if "argpartition" not in __import__("ast").unparse(fn.node):
+            continue
+        seen = set()
+        for pa in explore(ck, fn, unroll=(0, 1)):
+            for term, facts, node, kind in path_terms(pa):
+                for st, f2 in guarded_subterms(term, facts):
+                    if st[0] == "call" and st[1].endswith("argpartition") and len(st[2]) == 2 and st not in seen:
+                        seen.add(st)
+                        n += 1
+                        arr, kth = st[2]
+                        base = arr
+                        if base[0] == "poly":
+                            items = T.to_poly(base)
+                            if len(items) == 1:
+                                (m, c), = items.items()
+                                if len(m) == 1:
+                                    base = m[0]
+                        ok = False
+                        guard_txt = []
+                        for f, tv in f2.items():
+                            if tv is True and f[0] == "lt" and T.contains(f, kth):
+                                guard_txt.append(T.show(f))
+                                items = T.to_poly(f[1])
+                                # kth - <size> < 0
+                                if items.get((kth,), 0) == 1 and len(items) == 2:
+                                    ok = True
+                        w = where(fn, node)
+                        if ok:
+                            ck.ok("C07.G7", short(fn) + ":argpartition", w, "argpartition under a strict `kth < size` guard", "; ".join(guard_txt)[:160])
+                        else:
+                            weak = [T.show(f) for f, tv in f2.items() if T.contains(f, kth)]
+                            ck.violation("C07.G7", short(fn) + ":argpartition", w,
+                                         "numpy.argpartition(a, kth) can be reached with kth == len(a) (ValueError: kth out of bounds) - "
+                                         "e.g. a correlation with exactly peaksCount peaks aborts the run", found="guards on the path: " +
+                                         ("; ".join(weak)[:200] or "none"), required="strict `kth < size` guard")
+    ck.floor("C07.G7 argpartition sites", n, 1)
